@@ -22,7 +22,7 @@ ASSUMPTIONS = [
     "the set of runtime files is read from pyopenapi_gen.emitters.core_emitter.RUNTIME_FILES; files the core emitter renders from templates "
     "(config.py, __init__.py, exception_aliases.py, py.typed, README) are not byte-compared",
 ]
-BOUND = {"quick": "every case of C01 quick (graphs: prefix names only) + 12 stale-core histories + 20 core-switch histories + 32 filesystem layouts + 93 hostile-text documents + 9 two-client histories of the project root; ~40 field packs; ~55 operation packs; G(2,1) without required flag, prefix names",
+BOUND = {"quick": "every case of C01 quick (graphs: prefix names only) + 12 stale-core histories + 20 core-switch histories + 32 filesystem layouts + 93 hostile-text documents + 9 two-client histories of the project root; 57 field packs; 164 operation packs (incl. deprecated operations); runtime-only interpreter without the generator, its dependencies or their distribution metadata; G(2,1) without required flag, prefix names",
          "thorough": "45 layouts x 11 documents; all field/operation packs of C01 thorough; G(2,1) full"}
 CHUNK = 4
 ISOLATE = True  # every case in its own forked process: generator globals carry history only inside a case
